@@ -51,7 +51,7 @@ def plan(seed, tier):
 def rand_text(rng, markup=False, tabs=False, hostile=None):
     paras = []
     for _ in range(rng.randint(1, 4)):
-        kind = rng.choice(["prose", "prose", "list", "colon-list", "short-lines", "numbered"])
+        kind = rng.choice(["prose", "prose", "list", "colon-list", "colon-prose", "short-lines", "numbered"])
         ws = WORDS + (MARKUP_WORDS if markup else [])
 
         def line(n):
@@ -69,10 +69,16 @@ def rand_text(rng, markup=False, tabs=False, hostile=None):
             lines = [f"{i + 1}. " + line(rng.randint(1, 16)) for i in range(rng.randint(1, 3))]
         elif kind == "colon-list":
             lines = [line(rng.randint(2, 6)) + ":"] + ["- " + line(rng.randint(1, 10)) for _ in range(rng.randint(1, 3))]
+        elif kind == "colon-prose":
+            lines = [line(rng.randint(1, 5)) + ":"] + [line(rng.randint(1, 10)) for _ in range(rng.randint(1, 3))]
         else:
             lines = [line(rng.randint(1, 3)) for _ in range(rng.randint(2, 5))]
         # protoc keeps one leading space on continuation lines of a comment
-        paras.append("\n".join((" " if i and rng.random() < 0.7 else "") + x for i, x in enumerate(lines)))
+        # ... and whatever blanks the author left at the end of a line
+        trail = rng.random() < 0.25
+        paras.append("\n".join((" " if i and rng.random() < 0.7 else "") + x +
+                               (rng.choice([" ", "  ", "\t" if tabs else " "]) if trail and rng.random() < 0.5 else "")
+                               for i, x in enumerate(lines)))
     text = ("\n\n" if rng.random() < 0.7 else "\n").join(paras)
     if hostile:
         text = hostile(rng, text)
